@@ -4,6 +4,14 @@ import os
 HERE = os.path.dirname(os.path.dirname(os.path.abspath(__file__)))
 
 
+def _cvc5_version():
+    try:
+        import cvc5
+        return getattr(cvc5, "__version__", "present")
+    except Exception:  # noqa
+        return None
+
+
 def write(pid, tier, seed, harness, conds, results, violations, harness_errors, kf_lines, validated, wall, conf=None):
     import z3
     rs = [results[c.id] for c in conds]
@@ -50,7 +58,11 @@ def write(pid, tier, seed, harness, conds, results, violations, harness_errors, 
         "unmodelled_library_names_touched": sorted({f for r in rs for f in r.get("fallthrough", [])}),
         "known_findings_reported": kf_lines,
         "harness_errors": harness_errors,
-        "solver_versions": {"z3": z3.get_version_string()},
+        "solver_versions": {"z3": z3.get_version_string(), "cvc5": _cvc5_version()},
+        "cvc5_cross_check": {"queries": sum(r.get("cvc5_cross_check", {}).get("queries", 0) for r in rs),
+                             "agree": sum(r.get("cvc5_cross_check", {}).get("agree", 0) for r in rs),
+                             "cvc5_inconclusive": sum(r.get("cvc5_cross_check", {}).get("cvc5_inconclusive", 0) for r in rs),
+                             "disagree": sum(r.get("cvc5_cross_check", {}).get("disagree", 0) for r in rs)},
     }
     ev = {
         "property_id": pid,
